@@ -16,6 +16,8 @@
      AFwd r       link.go processRemoteAdds -> forwardBatch -> switch.go ForwardPackets
                   -> circuit_map.go CommitCircuits, r = Adds/Drops/Fails classification
      ASwitchFail  switch.go handlePacketAdd -> failAddPacket
+     AAbandon     switch.go ForwardPackets: routeAsync gave up on linkQuit, circuit deleted
+                  again (C08-F2 repair)
      AOutAddFail  link.go handleDownstreamUpdateAdd AddHTLC error -> mailbox FailAdd
                   -> switch.go closeCircuit (hasSource) -> FailCircuit
      AOutAdd      link.go handleDownstreamUpdateAdd AddHTLC ok (NotifyForwardingEvent)
@@ -77,6 +79,7 @@ Inductive action :=
 | AReject
 | AFwd (r : fwdres)
 | ASwitchFail
+| AAbandon
 | AOutAddFail
 | AOutAdd (ok : key)
 | AOpen (ok : key)
@@ -159,6 +162,14 @@ Section Model.
       else None
     | ASwitchFail =>
       if pkt_live c then Some (set_mb (set_pk c false) RFail, 0%Z) else None
+    | AAbandon =>
+      (* ForwardPackets could not hand the packet to the switch because the
+         incoming link is stopping: the freshly committed circuit is removed
+         again, the replay after the link restart forwards the add afresh
+         (only in trees carrying the C08-F2 repair; without it the circuit
+         stays half-open and its packet is gone, see notes/C08.md) *)
+      if pkt_live c && is_locked c && mb_none c
+      then Some (set_cs (set_pk c false) CNone, 0%Z) else None
     | AOutAddFail =>
       if pkt_live c then Some (set_mb (set_closing (set_pk c false) true) RFail, 0%Z)
       else None
